@@ -644,9 +644,11 @@ func parseRaces(s string) (int, map[string]int) {
 
 // decidingRaces turns the race reports of one log whose two access stacks
 // (not the "Goroutine N created at" stacks) contain a frame in one of the
-// deciding sources into violations, keyed like parseRaces keys its sites. A
-// report that only involves harness files (zz_verif_*) never matches, because
-// the deciding substrings name repository sources.
+// deciding sources into violations "race:<funcA> <-> <funcB>": like the site
+// key of parseRaces, but naming the innermost function outside the Go runtime
+// with its receiver. A report that only involves harness files (zz_verif_*)
+// never matches: harness frames are not looked at, and the deciding
+// substrings name repository sources.
 func decidingRaces(s string, deciding []string) []violation {
 	if len(deciding) == 0 {
 		return nil
@@ -661,24 +663,36 @@ func decidingRaces(s string, deciding []string) []violation {
 			access = access[:i]
 		}
 		hit := false
-		for _, l := range strings.Split(access, "\n") {
-			l = strings.TrimSpace(l)
-			if !strings.HasPrefix(l, "/") || strings.Contains(l, "zz_verif_") {
-				continue // not a source position, or a harness frame
-			}
-			for _, d := range deciding {
-				if strings.Contains(l, d) {
-					hit = true
+		var tops []string
+		for _, stack := range strings.Split(access, "\n\n") {
+			lines := strings.Split(stack, "\n")
+			top := ""
+			for i := 0; i+1 < len(lines); i++ {
+				fn, pos := strings.TrimSpace(lines[i]), strings.TrimSpace(lines[i+1])
+				if !strings.HasSuffix(fn, "()") || !strings.HasPrefix(pos, "/") {
+					continue
 				}
+				if top == "" && !strings.HasPrefix(fn, "runtime.") {
+					top = strings.TrimSuffix(fn[strings.LastIndex(fn, "/")+1:], "()")
+				}
+				if strings.Contains(pos, "zz_verif_") {
+					continue // harness frame
+				}
+				for _, d := range deciding {
+					if strings.Contains(pos, d) {
+						hit = true
+					}
+				}
+			}
+			if top != "" {
+				tops = append(tops, top)
 			}
 		}
 		if !hit {
 			continue
 		}
-		_, sites := parseRaces("WARNING: DATA RACE" + b)
-		for site := range sites {
-			out = append(out, violation{Sig: "race:" + site, Detail: "WARNING: DATA RACE" + b, Stream: "race-detector", Case: -1})
-		}
+		sort.Strings(tops)
+		out = append(out, violation{Sig: "race:" + strings.Join(tops, " <-> "), Detail: "WARNING: DATA RACE" + b, Stream: "race-detector", Case: -1})
 	}
 	return out
 }
